@@ -55,16 +55,16 @@ static const char *ENVNAME = "real";
 
 /* ------------------------------------------------------------------ ops */
 enum { O_BLK0, O_BLK1, O_T0, O_T50, O_TNEG, O_KA0, O_KA1, O_BACKLOG, O_BIND, O_LISTEN, O_CONN_OK, O_CONN_REFUSED, O_ACCEPT, O_SEND, O_RECV, O_WAIT_IN, O_SHUT_W, O_SHUT_RW, O_CLOSE,
-       O_PCONN, O_PSEND, O_PCLOSE, O_SENDTO, O_RECVFROM, O_PSENDTO, O_ACC_NBRECV, O_CONN_SILENT, NOPS };
+       O_PCONN, O_PSEND, O_PCLOSE, O_SENDTO, O_RECVFROM, O_PSENDTO, O_ACC_NBRECV, O_CONN_SILENT, O_CONN_AGAIN, NOPS };
 static const char *ON[NOPS] = {"nonblocking", "blocking", "timeout0", "timeout50", "timeout-5", "keepalive0", "keepalive1", "backlog3", "bind", "listen", "connect-listening", "connect-closed-port", "accept", "send", "receive", "wait-in", "shutdown-w", "shutdown-rw", "close",
-                               "peer-connects", "peer-sends", "peer-closes", "send_to", "receive_from", "peer-send_to", "accepted-socket-nonblocking-receive", "connect-silent-peer"};
+                               "peer-connects", "peer-sends", "peer-closes", "send_to", "receive_from", "peer-send_to", "accepted-socket-nonblocking-receive", "connect-silent-peer", "connect-again-while-pending"};
 static int DGRAM, FAM, FROMFD;          /* FROMFD: the socket under test is built by p_socket_new_from_fd around a descriptor the harness made (kinds stream-fd / dgram-fd) */
 static const char *KINDNAME = "stream";
 
 /* reference model of the socket under test (documented behaviour, see DESIGN.md C10) */
-typedef struct { int blocking, timeout, keepalive, backlog, listening, connected, closed, bound; int rx, peer_closed, pending, peer_listening, have_peer_conn, shut_w; int acc_open; } Ref;
+typedef struct { int blocking, timeout, keepalive, backlog, listening, connected, closed, bound; int rx, peer_closed, pending, peer_listening, have_peer_conn, shut_w; int acc_open; int silent; } Ref;      /* silent: a connect to a peer that never answers is pending */
 static void ref_init(Ref *r) { memset(r, 0, sizeof *r); r->blocking = 1; r->backlog = 5; }
-static void ref_key(const Ref *r, char *b, size_t n) { snprintf(b, n, "%d%d.%d.%d.%d.%d%d%d%d.%d%d%d%d%d%d", r->blocking, r->keepalive, r->timeout, r->backlog, r->rx, r->listening, r->connected, r->closed, r->bound, r->peer_closed, r->pending, r->peer_listening, r->have_peer_conn, r->shut_w, r->acc_open); }
+static void ref_key(const Ref *r, char *b, size_t n) { snprintf(b, n, "%d%d.%d.%d.%d.%d%d%d%d.%d%d%d%d%d%d%d", r->blocking, r->keepalive, r->timeout, r->backlog, r->rx, r->listening, r->connected, r->closed, r->bound, r->peer_closed, r->pending, r->peer_listening, r->have_peer_conn, r->shut_w, r->acc_open, r->silent); }
 
 static void ref_step(Ref *t, int o)
 {
@@ -73,7 +73,8 @@ static void ref_step(Ref *t, int o)
     case O_KA0: if (!t->closed) t->keepalive = 0; break; case O_KA1: if (!t->closed) t->keepalive = 1; break;
     case O_BACKLOG: if (!t->listening) t->backlog = 3; break; case O_BIND: if (!t->closed) t->bound = 1; break; case O_LISTEN: if (!t->closed && !DGRAM) t->listening = 1; break;
     case O_CONN_OK: if (!t->closed) { t->connected = 1; t->have_peer_conn = 1; t->peer_listening = 1; } break;
-    case O_CONN_SILENT: t->have_peer_conn = 1; t->bound = 1; break;
+    case O_CONN_SILENT: t->have_peer_conn = 1; t->bound = 1; t->silent = 1; break;
+    case O_CONN_AGAIN: break;
     case O_CONN_REFUSED: if (!t->closed) t->have_peer_conn = 1; break;      /* what a socket may still do after a refused connect is not defined: only options and close follow */
     case O_ACCEPT: if (!t->closed && t->pending > 0) { t->pending--; t->acc_open = 1; } break;
     case O_RECV: if (!t->closed && t->rx > 0) t->rx -= t->rx < 4 ? t->rx : 4; break;
@@ -101,6 +102,7 @@ static int op_applicable(const Ref *r, int op)
     case O_LISTEN: return (r->bound && !r->connected && !r->listening && !r->have_peer_conn) || r->closed;
     case O_CONN_OK: case O_CONN_REFUSED: return (!r->connected && !r->listening && !r->bound && !r->have_peer_conn) || r->closed;
     case O_CONN_SILENT: return !r->connected && !r->listening && !r->bound && !r->have_peer_conn && !r->closed;
+    case O_CONN_AGAIN: return r->silent && !r->closed;         /* asking again while the handshake is pending: same answer as the first time */
     case O_ACCEPT: return (r->listening && !r->acc_open) || r->closed;
     case O_SEND: return (r->connected && !r->shut_w && !r->peer_closed) || r->closed;
     case O_RECV: case O_WAIT_IN: return r->connected || r->closed;
@@ -254,10 +256,15 @@ static void do_op(const Ref *pre, int op)
         port = port_of(peer_listen); l = mkaddr(&ss, port);
         peer_fill = socket(native_family(), SOCK_STREAM, 0); fl = fcntl(peer_fill, F_GETFL); fcntl(peer_fill, F_SETFL, fl | O_NONBLOCK);
         if (connect(peer_fill, (struct sockaddr *)&ss, l) < 0 && errno != EINPROGRESS) { perror("filler connect"); exit(2); }
-        r->have_peer_conn = 1; r->bound = 1;
+        r->have_peer_conn = 1; r->bound = 1; r->silent = 1;
         a = lib_addr(port); res = p_socket_connect(sut, a, &e); p_socket_address_free(a);
         if (res) viol("connect/silent-peer-connected", "connect to a listener with a full accept queue reported success");
         else { Ref t = *pre; if (!t.blocking) { if (!e || p_error_get_code(e) != (pint)P_ERROR_IO_IN_PROGRESS) viol("nonblocking/connect/wrong-error", "non-blocking connect that cannot complete reported %s instead of in-progress", ec(e)); if (env_clock() != t0 || env_blocking_polls() != p0) viol("nonblocking/connect/waited", "non-blocking connect waited"); } else check_wait_rules(&t, "connect", 0, ec(e), env_clock() - t0, env_blocking_polls() - p0, 0); }
+        break; }
+    case O_CONN_AGAIN: {
+        PSocketAddress *a = lib_addr(port_of(peer_listen)); res = p_socket_connect(sut, a, &e); p_socket_address_free(a);
+        if (res) viol("connect/silent-peer-connected", "a second connect while the handshake with a silent listener is pending reported success");
+        else { Ref t = *pre; if (!t.blocking) { if (!e || p_error_get_code(e) != (pint)P_ERROR_IO_IN_PROGRESS) viol("nonblocking/connect/wrong-error", "second non-blocking connect on a pending handshake reported %s instead of in-progress", ec(e)); if (env_clock() != t0 || env_blocking_polls() != p0) viol("nonblocking/connect/waited", "non-blocking connect waited"); } else check_wait_rules(&t, "connect", 0, ec(e), env_clock() - t0, env_blocking_polls() - p0, 0); }
         break; }
     case O_ACCEPT: {
         PSocket *a = p_socket_accept(sut, &e); res = a != NULL;
@@ -299,7 +306,7 @@ after:
     if (e) { snprintf(ebuf, sizeof ebuf, "%s", ec(e)); err = ebuf; }
     if (blocked) {
         Ref t = *r; int can_wait = 0;
-        switch (op) { case O_ACC_NBRECV: can_wait = 0; break; case O_CONN_SILENT: can_wait = 1; break; case O_ACCEPT: can_wait = r->pending == 0; break; case O_RECV: can_wait = r->rx == 0 && !r->peer_closed; break; case O_RECVFROM: can_wait = r->rx == 0; break; case O_WAIT_IN: can_wait = 1; t.blocking = 1; break; }
+        switch (op) { case O_ACC_NBRECV: can_wait = 0; break; case O_CONN_SILENT: case O_CONN_AGAIN: can_wait = 1; break; case O_ACCEPT: can_wait = r->pending == 0; break; case O_RECV: can_wait = r->rx == 0 && !r->peer_closed; break; case O_RECVFROM: can_wait = r->rx == 0; break; case O_WAIT_IN: can_wait = 1; t.blocking = 1; break; }
         if (r->closed || !can_wait || !(r->blocking || op == O_WAIT_IN) || r->timeout > 0) { snprintf(sg, sizeof sg, "waits-forever/%s", ON[op]); viol(sg, "%s waits without a time limit although it %s", ON[op], r->closed ? "is called on a closed socket" : r->timeout > 0 ? "has a time-out" : !r->blocking ? "is non-blocking" : "could proceed"); }
         snprintf(outcome, sizeof outcome, "BLOCKS");
     } else snprintf(outcome, sizeof outcome, "res=%ld err=%s dt=%lu waits=%ld", res, err, dt, dp);
